@@ -5,6 +5,7 @@
 // write that would cross a chosen byte offset of the output file, return short counts, EINTR, or fail fsync/close. libbz2 writes
 // through stdio whose internal write is not interposable: for bzip2 the kernel provides the fault (RLIMIT_FSIZE with SIGXFSZ
 // ignored gives EFBIG at an exact byte offset), and a seccomp filter makes the close system call on the output descriptor fail.
+#include "tmpdir.hpp"
 #include "filegen.hpp"
 #include "perturb.hpp"
 
@@ -144,7 +145,7 @@ struct RunResult {
 };
 
 static const std::string& out_path() {
-    static const std::string p = "/dev/shm/verif-c08-" + std::to_string(getpid());
+    static const std::string p = tmpdir::prefix() + "c08-" + std::to_string(getpid());
     return p;
 }
 
